@@ -55,7 +55,15 @@ def rule_tokens(ctx):
     branches = {"?": "if part == '?':", "*": "elif part == '*':", "**": "elif part == '**':", "**/": "elif part == '**/':", "[x]": "elif part.startswith('[') and part.endswith(']'):", "${*n}": "elif part.startswith('${*') and part.endswith('}'):"}
     for k, b in branches.items():
         ctx.check(b in src, cr.fq, f"branch for token {k}", "a token kind of the tokenizer has no branch in the regex compiler", "handled")
-    ctx.check("else: raise ValueError(f'Cannot convert wildcard to regex: {part}')" in src, cr.fq, "unknown tokens raise", "unknown tokens are silently dropped", "raises")
+    # the token dispatch chain ends in an else that raises
+    chain_ok = False
+    for n in ast.walk(cr.node):
+        if isinstance(n, ast.If) and ast.unparse(n.test) == "part == '?'":
+            cur = n
+            while len(cur.orelse) == 1 and isinstance(cur.orelse[0], ast.If):
+                cur = cur.orelse[0]
+            chain_ok = bool(cur.orelse) and any(isinstance(x, ast.Raise) for x in cur.orelse)
+    ctx.check(chain_ok, cr.fq, "unknown tokens raise", "unknown tokens are silently dropped", "raises")
     cg = ctx.prog.func("nglob.convert_nglob_to_glob")
     ctx.check("RE_ANY_WILD.split(pattern)" in ast.unparse(cr.node) and "RE_ANY_WILD.split(pattern)" in ast.unparse(cg.node), "nglob", "both compilers tokenise with RE_ANY_WILD", "the two compilers tokenise differently", "same tokenizer")
     ctx.check("re.escape(part)" in ast.unparse(cr.node), cr.fq, "literal text is escaped", "literal text is inserted into the regex unescaped", "re.escape")
